@@ -363,6 +363,7 @@ def run(ctx):
                             f'{v["reached"]}: {ev}', {'history': h.name, 'event': ev})
     _same_name_outputs(ctx, base, pipe, expect)
     _stale_output_histories(ctx, base, pipe, expect)
+    _no_scratch_dir_failure(ctx, rng)
     ctx.sample({'history': owners[0].name, 'events': traces[0]['events'][:12]})
     ctx.part('c2s', histories=len(histories), events=sum(len(t['events']) for t in traces), rejected=rej,
              stages=stage_list)
@@ -453,6 +454,30 @@ def _stale_output_histories(ctx, base, pipe, expect):
         ctx.report('querymarkers:stale:1920', f'{CL[1920]} (query markers, stale statistics file next to the marker file)',
                    {'history': 'querymarkers_search_stale_stats'})
     ctx.part('c2s', stale_output_histories=2)
+
+
+def _no_scratch_dir_failure(ctx, rng):
+    """H11 a mapping run WITHOUT a scratch directory (tmp_dir = None: the buffer of finished chunks is created in
+    the output directory) that ends with an error leaves nothing there but its outputs"""
+    from harness import sub
+    s = None
+    while s is None:
+        s = base_scenario(rng, 3, 3)
+    jobs = []
+    for k, pt, mode in ((3, 'after', 'raise'), (2, 'mid', 'kill')):
+        pp = ctx.scratch / f'h11_plan_{k}.json'
+        json.dump(pooltrace.fault_plan(s, k, pt, mode), open(pp, 'w'))
+        jobs.append({'job': {'scn': s, 'scheme': 'structural', 'plan': str(pp), 'mode': 'cli', 'damage': 'no_tmp_dir'}})
+    for (k, pt, mode), o in zip(((3, 'after', 'raise'), (2, 'mid', 'kill')), sub.run_jobs(ctx, jobs)):
+        ctx.count({'stage': 'mapping', 'kind': 'fail_without_scratch_dir', 'fault': [k, pt, mode]}, nontrivial=True)
+        extra = [x for x in o.get('out_listing', []) if x not in ('res.json', 'log.txt', 'res.h5')]
+        if o['ok']:
+            raise MachineryError('history H11: the injected failure did not fail the run')
+        if extra:
+            ctx.report('mapping:error-path:output-dir-left', f'a failing mapping run without a scratch directory left {extra} '
+                       f'in the output directory (worker {k} fails {pt} its work by {mode})',
+                       {'history': 'mapping_fail_without_scratch_dir', 'fault': [k, pt, mode]})
+    ctx.part('c2s', no_scratch_dir_failures=2)
 
 
 def _same_name_outputs(ctx, base, pipe, expect):
